@@ -101,8 +101,9 @@ func (i *imports) Imports() []Import {
 
 func (i *imports) decorateImport(imp string) string {
 	for shortcut, path := range i.prefixes {
-		if strings.Index(imp, shortcut) == 0 {
-			return strings.Replace(imp, shortcut, path, 1)
+		// an alias stands for whole path segments only: "viper" matches "viper" and "viper/remote", but not "viperx"
+		if imp == shortcut || strings.HasPrefix(imp, shortcut+"/") {
+			return path + imp[len(shortcut):]
 		}
 	}
 
